@@ -592,7 +592,7 @@ func c12World(rc *kernel.RunCtx) {
 		fixOnce(c.env)
 		park := func(kind string, n int) { k.Park(c.name, kind, fmt.Sprint(n), nil) }
 		c.env.Hook = func(kind, key string) { k.Park(c.name, kind, key, nil) }
-		c.w = &core{fault: c.fault, sticky: true, park: park}
+		c.w = &core{fault: c.fault, sticky: true, park: park, limit: 512 << 10}
 		k.Go(func() {
 			k.Park(c.name, "start", "", nil)
 			if c.viaMW {
@@ -619,6 +619,18 @@ func c12World(rc *kernel.RunCtx) {
 		k.Quiesce()
 		ps := k.ParkedList()
 		if len(ps) == 0 {
+			break
+		}
+		runaway := false
+		for _, p := range ps {
+			if p.Kind == "runaway" {
+				runaway = true
+			}
+		}
+		if runaway || k.Steps > 100*maxSteps {
+			// the parked tasks are abandoned; the worker process is restarted after this run
+			rc.Fail("C12/render-does-not-terminate", "a render wrote more than %d bytes or needed %d scheduler steps (runaway recursion)", 512<<10, k.Steps)
+			rc.Res.Restart = true
 			break
 		}
 		i := 0
